@@ -10,9 +10,9 @@ import json,sys
 cid,name,needs,det,out=sys.argv[1:6]
 try: ver=json.loads(out)
 except Exception: ver={"raw":out}
-meta={"property":cid,"name":name,"needs_to_manifest":needs,"detected_by":det,
+meta={"property":name.split("_")[0],"worktree":cid,"name":name,"needs_to_manifest":needs,"detected_by":det,
       "verified":ver,"ran":["lib/verify_seed.sh %s (apply patch, build, ctest 24 tests, demo/run.sh with and without the patch)"%cid,
-                            "git -C /repo apply seeded/%s/patch.diff; ./check %s; git -C /repo checkout -- ."%(name,cid)]}
+                            "git -C /repo apply seeded/%s/patch.diff; ./check %s; git -C /repo checkout -- ."%(name,name.split("_")[0])]}
 json.dump(meta,open('/verif/seeded/%s/meta.json'%name,'w'),indent=1)
 print(json.dumps(meta)[:400])
 PY
